@@ -66,6 +66,9 @@ def execute(sc, workdir):
     if sc.get("kind") == "lockstep":
         from . import c02
         return c02._lockstep(sc, workdir)
+    if sc.get("kind") == "b3":
+        from . import c02
+        return c02._b3(sc, workdir)
     if sc.get("kind") == "lockstep-mux":
         return _lockstep_mux(sc, workdir)
     r = execute_core(sc, workdir, ID, ("dev",))
